@@ -27,9 +27,25 @@ fn bmp_kind(m: &routecore::bmp::message::Message<bytes::Bytes>) -> &'static str 
 }
 const BMP_KINDS: [&str; 7] = ["init", "peerUp", "peerDown", "routeMon", "stats", "mirror", "term"];
 
+/// the variants of rotonda's `payload::Update`
+fn update_kind(u: &rotonda::payload::Update) -> &'static str {
+    use rotonda::payload::{Update as U, UpstreamStatus};
+    match u {
+        U::Single(_) => "single",
+        U::Bulk(_) => "bulk",
+        U::Withdraw(_, _) => "withdraw",
+        U::WithdrawBulk(_) => "withdrawBulk",
+        U::QueryResult(_, _) => "queryResult",
+        U::UpstreamStatusChange(UpstreamStatus::EndOfStream { .. }) => "upstreamStatus",
+        U::OutputStream(_) => "outputStream",
+    }
+}
+const UPDATE_KINDS: [&str; 7] = ["single", "bulk", "withdraw", "withdrawBulk", "queryResult", "upstreamStatus", "outputStream"];
+
 fn universe(area: &str) -> Option<String> {
     match area {
         "bmpdispatch" => { let _ = bmp_kind; Some(BMP_KINDS.join(" ")) }
+        "ribupdate" => { let _ = update_kind; Some(UPDATE_KINDS.join(" ")) }
         _ => None,
     }
 }
@@ -40,7 +56,7 @@ fn main() {
     let mut rec = Recorder::new("a case names one extracted table; nontrivial = the engine knows that table's universe (enum variants pinned by an exhaustive Rust match)");
     let areas: Vec<String> = match &args.replay {
         Some(p) => replay_cases(p).into_iter().filter_map(|c| c.strip_prefix("universe ").map(|s| s.to_string())).collect(),
-        None => ["bmpdispatch"].iter().map(|s| s.to_string()).collect(),
+        None => ["bmpdispatch", "ribupdate"].iter().map(|s| s.to_string()).collect(),
     };
     for a in areas {
         let u = universe(&a);
